@@ -209,6 +209,9 @@ pub fn bad_knobs() -> Vec<BadKnob> {
         k!("channels!=info", true, |s, f| s.frames[f].bad.chan_code = Some(if s.channels == 1 { 1 } else { 0 })),
         k!("total-too-small", true, |s, _f| { let t: u64 = s.frames.iter().map(|x| x.pcm[0].len() as u64).sum(); s.total = TotalSpec::Value(t.saturating_sub(1).max(1)) }),
         k!("total-too-large", true, |s, _f| { let t: u64 = s.frames.iter().map(|x| x.pcm[0].len() as u64).sum(); s.total = TotalSpec::Value(t + 1) }),
+        // declared totals that are wrong by a multiple of 2^32 (a 32-bit "remaining samples" computation sees them as exact)
+        k!("total-too-large-by-2^32", true, |s, _f| { let t: u64 = s.frames.iter().map(|x| x.pcm[0].len() as u64).sum(); s.total = TotalSpec::Value(t + (1u64 << 32)) }),
+        k!("total-too-large-by-2^35", true, |s, _f| { let t: u64 = s.frames.iter().map(|x| x.pcm[0].len() as u64).sum(); s.total = TotalSpec::Value(t + (1u64 << 35)) }),
         k!("sub-pad-bit", true, |s, f| last_sub(s, f).bad.pad_bit = true),
         k!("sub-type-2", true, |s, f| last_sub(s, f).bad.type_code = Some(2)),
         k!("sub-type-13", true, |s, f| last_sub(s, f).bad.type_code = Some(13)),
